@@ -6,17 +6,47 @@ PID = "C23"
 PROPS_FILE = "Props/C23.v"
 PREFIX = "C23"
 KNOWN = {}
-RULE = ("a case is a reader QoS plus a sequence of 1-40 operations (add_reader_change over 1-4 instances from 1-3 "
+RULE = ("a case is a reader QoS plus a sequence of 1-40 operations (add_reader_change over 1-4 instances, numbered from 1 "
+        "or, in half of the cases, from 0 (handle = 16 zero bytes = HANDLE_NIL), from 1-3 "
         "writers, read_next_instance/take_next_instance with previous handle in {none, 0..4}, random sample/view/"
         "instance-state masks and max_samples in {-1, 0, 1, 2, 3, 10, i32::MAX}, interleaved with read/take that leave "
         "instances without matching samples, match/unmatch) run on a fresh real UserDefinedDataReader; the state "
         "before every call is observed on a replayed copy; distinct = distinct operation line; non-trivial = at least "
         "two adds, one read/take and one stored sample")
-gen = _reader.gen_for("next")
+_base_gen = _reader.gen_for("next")
+
+
+def _shift0(case):
+    """renumber instances n -> n-1 so that instance 0 exists: its 16-byte handle is all zeros (= HANDLE_NIL),
+    an ordinary key hash in dust-dds (key value 0, keyless topic)"""
+    q, ops = case
+    out = []
+    for n, v in ops:
+        v = list(v)
+        if n == "A":
+            v[1] -= 1
+        elif n in ("R", "T"):
+            if v[4] >= 1:
+                v[4] -= 1
+        elif n in ("RN", "TN"):
+            if v[1] >= 1:
+                v[1] -= 1
+        out.append((n, v))
+    return (q, out)
+
+
+def gen(r, tier):
+    cases = _base_gen(r, tier)
+    return [_shift0(c) if r.random() < 0.5 else c for c in cases]
 
 
 def corpus():
     return [
+        # instance 0 (handle = 16 zero bytes = HANDLE_NIL) is an ordinary instance: a read walk with READ in the
+        # mask and a take walk with max_samples 1 continue from it to instances 1 and 2 (seeded change C23b)
+        parse_line("Q 0 0 -1 -1 -1 0 0 ; A 1 0 0 1 100 10 ; A 1 1 0 2 101 20 ; A 1 2 0 3 102 30 ; A 1 0 0 4 103 40 ; "
+                   "RN -1 -1 3 3 7 ; RN -1 0 3 3 7 ; RN -1 1 3 3 7 ; RN -1 2 3 3 7 ; "
+                   "TN 1 -1 3 3 7 ; TN 1 0 3 3 7 ; TN 1 1 3 3 7 ; TN 1 2 3 3 7"),
         # the fixed defect (66e7dc1): three instances, the middle one fully read, NOT_READ mask
         parse_line("Q 0 0 -1 -1 -1 0 0 ; A 1 1 0 1 100 10 ; A 1 2 0 2 101 20 ; A 1 3 0 3 102 30 ; A 1 2 0 4 103 40 ; "
                    "R -1 3 3 7 2 ; RN -1 1 2 3 7 ; RN -1 -1 2 3 7 ; RN -1 3 2 3 7"),
